@@ -1,5 +1,5 @@
 /-
-  Helper lemmas for C13: the overlap pass (`_remove_overlapping`, fix D60) — no two kept results
+  Helper lemmas for C13: the overlap pass (`_remove_overlapping`, fix D61) — no two kept results
   collide, every dropped result collides with a kept one that outranks it; the 20 % rule survives
   the neighbour merge.
 -/
